@@ -43,6 +43,7 @@ type CrashRec struct {
 
 	cur  int
 	infl bool
+	seen map[string]bool
 }
 
 func NewCrashRec(c *CaseCtx, root string) *CrashRec {
@@ -57,7 +58,34 @@ func (cr *CrashRec) SetStep(cur int, inflight bool, phase string) {
 	cr.Mon.SetTx(cur, phase)
 }
 
+func snapHash(s *Snapshot) uint64 {
+	paths := make([]string, 0, len(s.Files))
+	for p := range s.Files {
+		paths = append(paths, p)
+	}
+	sort.Strings(paths)
+	var w hashWriter
+	for _, p := range paths {
+		w.add(p)
+		w.add(s.Files[p])
+	}
+	for _, d := range s.Dirs {
+		w.add("d:" + d)
+	}
+	return w.h
+}
+
 func (cr *CrashRec) add(img Image) {
+	// identical directory content with the same allowed states needs to be opened only once
+	key := fmt.Sprintf("%x/%d/%v", snapHash(img.Snap), img.Cur, img.InFl)
+	if cr.seen == nil {
+		cr.seen = map[string]bool{}
+	}
+	cr.C.Stat("images_built", 1)
+	if cr.seen[key] {
+		return
+	}
+	cr.seen[key] = true
 	if len(cr.Images) >= cr.MaxImg {
 		// replace a random earlier image (keeps a uniform sample, deterministic by seed)
 		i := cr.Rng.Intn(len(cr.Images) + 1)
